@@ -150,7 +150,9 @@ func placePrev(r *rand.Rand, sp *oracle.Spec) (int64, string) {
 	lo := unixOf(1970, 1, 1, 0, 0, 0)
 	hi := unixOf(2262, 4, 11, 0, 0, 0)
 	uniform := func() int64 { return lo + r.Int63n(hi-lo) }
-	recent := func() int64 { return unixOf(1990, 1, 1, 0, 0, 0) + r.Int63n(unixOf(2080, 1, 1, 0, 0, 0)-unixOf(1990, 1, 1, 0, 0, 0)) }
+	recent := func() int64 {
+		return unixOf(1990, 1, 1, 0, 0, 0) + r.Int63n(unixOf(2080, 1, 1, 0, 0, 0)-unixOf(1990, 1, 1, 0, 0, 0))
+	}
 	switch r.Intn(14) {
 	case 0:
 		return uniform(), "uniform"
